@@ -262,7 +262,8 @@ Opt(n) ==
       [] n.k = "Name" -> OOk([k |-> "Path", steps |-> <<n>>, keep |-> FALSE])
       [] n.k = "Negation" -> LET A == Opt(n.e) IN
                              IF ~A.ok THEN OErr
-                             ELSE IF A.n.k = "Number" THEN OOk([k |-> "Number", num |-> NumNeg(A.n.num)])
+                             \* (the sign of a zero literal is outside the model: trees are compared with every zero written 0/1)
+                             ELSE IF A.n.k = "Number" THEN OOk([k |-> "Number", num |-> IF A.n.num.n = 0 THEN [t |-> "num", n |-> 0, d |-> 1] ELSE NumNeg(A.n.num)])
                              ELSE OOk([k |-> "Negation", e |-> A.n])
       [] n.k = "Range" -> Opt2(n, LAMBDA a, b : [k |-> "Range", l |-> a, r |-> b])
       [] n.k = "Array" -> LET S == OptSeq(n.items, 1, <<>>) IN IF S.ok THEN OOk([k |-> "Array", items |-> S.ns]) ELSE OErr
